@@ -252,7 +252,7 @@ pub fn case_spec(case: &Case, input: &[u8]) -> RunSpec {
         out: case.out.clone(),
         err: case.err.clone(),
         hash_seed: case.hash_seeds.first().copied(),
-        max_events: 400_000,
+        max_events: if case.param("max_events") > 0 { case.param("max_events") as usize } else { 400_000 },
         files: Vec::new(),
     }
 }
